@@ -15,5 +15,9 @@ Definition same_prehash (rt1 : route) (i1 : iso) (rt2 : route) (i2 : iso) : list
     b2z (match i_body i1, i_body i2 with
          | BBase, BBase => true
          | BPoint _ _ _ _ _, BPoint _ _ _ _ _ => mset_eqb (tokens rt1 i1) (tokens rt2 i2)
-         | BModel _ m1, BModel _ m2 => veqb (model_doc m1) (model_doc m2)
+         | BModel _ m1, BModel _ m2 => veqb (jnorm (model_doc m1)) (jnorm (model_doc m2))   (* json.dumps writes tuples and lists alike *)
          | _, _ => false end) ].
+(* the same, plus: is the model's to_dict of each abstracted object the dictionary the implementation's to_dict() returned (typed, as maps)?
+   -> [same to_dict; same data part; to_dict of 1 agrees; to_dict of 2 agrees] *)
+Definition chk_pair (rt1 : route) (i1 : iso) (d1 : dict) (rt2 : route) (i2 : iso) (d2 : dict) : list Z :=
+  same_prehash rt1 i1 rt2 i2 ++ [ b2z (dict_eqb (to_dict i1) d1); b2z (dict_eqb (to_dict i2) d2) ].
